@@ -263,7 +263,23 @@ class Metadata(CbMixin, ProgMixin):
         self.meta_version = info.get("meta version", 1)
         self.pieces = info.get("pieces", bytes())
         if self.meta_version == 2:
-            self._parse_tree(info["file tree"], [self.name])
+            tree = info["file tree"]
+            if list(tree) == [self.name] and "" in tree[self.name]:
+                # single file torrent: the file itself is named after
+                # the torrent, it does not live inside a directory.
+                leaf = tree[self.name][""]
+                self.is_file = True
+                self.filenames.add(self.name)
+                self.files.append({
+                    "path": Path(self.name).parent,
+                    "filename": self.name,
+                    "full": self.name,
+                    "length": leaf["length"],
+                    "root": leaf.get("pieces root"),
+                })
+                self.length += leaf["length"]
+            else:
+                self._parse_tree(tree, [self.name])
         elif "length" in info:
             self.length += info["length"]
             self.is_file = True
